@@ -928,6 +928,42 @@ func ruleSendFile(rule string) ruleFn {
 					atom("exit code 0", "+"+ex+" ==0"))
 			}
 		}
+		// what the polls read: exit code 0 is recorded only after the helper ran to its end without an
+		// error (cmd.Wait / cmd.Run returned nil); every other recorded value is a non-zero constant
+		// or the child's own exit status - a helper that could not even be started never reads "done"
+		for _, lf := range []string{"launchFold", "launchSync"} {
+			fn := c.Anchor(rule, "(*sync/agent.Server)."+lf)
+			if fn == nil {
+				continue
+			}
+			RL := NewRenderer(fn)
+			nst := 0
+			eachInstr(fn, func(in ssa.Instruction) {
+				st, ok := in.(*ssa.Store)
+				if !ok || !strings.HasSuffix(RL.V(st.Addr), ".ExitCode") {
+					return
+				}
+				nst++
+				key := FnName(fn) + " | exit code recorded"
+				if k, isC := intConst(st.Val); isC {
+					if k != 0 {
+						c.OK(rule, key+" | failure", c.P.InstrPos(in), fmt.Sprintf("constant %d", k), false)
+						return
+					}
+					c.Guard(rule, fn, []ssa.Instruction{in}, "record exit code 0", nil, okcall("(*os/exec.Cmd).Wait", "(*os/exec.Cmd).Run"))
+					return
+				}
+				v := RL.V(st.Val)
+				if cl, isCall := strip(st.Val).(*ssa.Call); isCall && strings.HasSuffix(CalleeName(cl), ".ExitStatus") {
+					c.OK(rule, key+" | child's status", c.P.InstrPos(in), "the child's own exit status", false)
+				} else {
+					c.Bad(rule, key, c.P.InstrPos(in), "records "+v+": a computed code that may be 0 although the helper did not run to a clean end", nil)
+				}
+			})
+			if nst == 0 {
+				c.Undecided(rule, FnName(fn)+" | exit code recorded", c.P.Pos(fn.Pos()), "no store to ExitCode found")
+			}
+		}
 		// the other end of that protocol: the sync agent answers the launch request (after which the
 		// client starts polling) only once the new process carries the "still running" code -2, set
 		// in the handler itself - in the launcher goroutine it may come after the first poll, which
